@@ -230,12 +230,17 @@ int main (int argc, char **argv) {
     fprintf (out, "static MIR_type_t %sproto%d_res[] = {", P, i);
     for (uint32_t k = 0; k < p->nres; k++) fprintf (out, "%s, ", tname (p->res_types[k]));
     fprintf (out, "MIR_T_UNDEF};\nstatic MIR_var_t %sproto%d_argv[] = {", P, i);
-    for (size_t k = 0; k < na; k++) { MIR_var_t v = VARR_GET (MIR_var_t, p->args, k); fprintf (out, "{%s, \"a%zu\", %zu}, ", tname (v.type), k, v.size); }
+    for (size_t k = 0; k < na; k++) { MIR_var_t v = VARR_GET (MIR_var_t, p->args, k); fprintf (out, "{%s, \"a%zu\", %zu}, ", tname (v.type), k, MIR_all_blk_type_p (v.type) ? v.size : (size_t) 0); }
     fprintf (out, "{MIR_T_UNDEF, 0, 0}};\n");
     fprintf (out, "static VARR (MIR_var_t) %sproto%d_args = {%zu, %zu, %sproto%d_argv, 0};\n", P, i, na, na + 1, P, i);
     fprintf (out, "static struct MIR_proto %sproto%d = {\"%s\", %u, %sproto%d_res, %d, %s%sproto%d_args};\n", P, i, p->name, p->nres, P, i,
              p->vararg_p, "&", P, i);
-    fprintf (out, "static struct MIR_item %sproto_item%d = {.item_type = MIR_proto_item, .u = {.proto = &%sproto%d}};\n", P, i, P, i);
+    /* The proto item is laid out as raw pointer cells, not as a struct MIR_item initialiser: CBMC 6.11 loses the pointer in
+       `proto_item->u.proto->nres` (call_insn_execute) when u.proto - a non-first union member - is read through a pointer to
+       a statically initialised struct MIR_item ("invalid object"; every interpreted call became undecidable).  Only u.proto of
+       a proto item is read by the interpreter; the cell index is computed by the compiler from the real struct. */
+    fprintf (out, "static void *%sproto_item%d_raw[sizeof (struct MIR_item) / sizeof (void *)] = {[offsetof (struct MIR_item, u) / sizeof (void *)] = &%sproto%d};\n", P, i, P, i);
+    fprintf (out, "#define %sproto_item%d (*(struct MIR_item *) %sproto_item%d_raw)\n", P, i, P, i);
     fprintf (out, "static void %sff_common (MIR_proto_t proto, void *addr, MIR_val_t *res_args);\n", P);
     fprintf (out, "static void %sff_proto%d (void *addr, void *res_args) { %sff_common (&%sproto%d, addr, (MIR_val_t *) res_args); }\n", P, i, P, P, i);
   }
@@ -248,7 +253,7 @@ int main (int argc, char **argv) {
     fprintf (out, "  {\"%s\", (func_desc_t) &%sfd%d, %u, %u, %d, {", fu->name, P, i, fu->nargs, fu->nres, fu->vararg_p);
     for (uint32_t k = 0; k < fu->nargs && k < 24; k++) fprintf (out, "%s, ", tname (VARR_GET (MIR_var_t, fu->vars, k).type));
     fprintf (out, "MIR_T_UNDEF}, {");
-    for (uint32_t k = 0; k < fu->nargs && k < 24; k++) fprintf (out, "%zu, ", VARR_GET (MIR_var_t, fu->vars, k).size);
+    for (uint32_t k = 0; k < fu->nargs && k < 24; k++) fprintf (out, "%zu, ", MIR_all_blk_type_p (VARR_GET (MIR_var_t, fu->vars, k).type) ? VARR_GET (MIR_var_t, fu->vars, k).size : (size_t) 0);
     fprintf (out, "0}, {");
     for (uint32_t k = 0; k < fu->nres && k < 8; k++) fprintf (out, "%s, ", tname (fu->res_types[k]));
     fprintf (out, "MIR_T_UNDEF}},\n");
@@ -272,6 +277,19 @@ int main (int argc, char **argv) {
         }
       }
     }
+  /* long double data (incl. the ld immediates simplify_op moves into data items): the byte dump above holds the x87 image of the
+     build machine; a harness compiled by a front end with another long double format (CBMC: binary128) gets the VALUE here */
+  for (int i = 0; i < nditems; i++) {
+    MIR_item_t it = ditems[i].item;
+    if (it->item_type != MIR_data_item || it->u.data->el_type != MIR_T_LD) continue;
+    for (size_t k = 0; k < it->u.data->nel; k++) {
+      long double v;
+      memcpy (&v, it->u.data->u.els + k * sizeof (long double), sizeof (long double));
+      fprintf (out, "  { MIR_val_t v = ");
+      pr_ld (v);
+      fprintf (out, "; memcpy (&%ssec%d[%zu], &v.ld, sizeof (long double)); }\n", P, ditems[i].sec, ditems[i].off + k * sizeof (long double));
+    }
+  }
   fprintf (out, "}\n");
   fprintf (out, "/* mirdump-summary funcs=%d protos=%d sections=%d externals=%d */\n", nfns, nprotos, nsecs, nexts);
   return 0;
